@@ -156,6 +156,13 @@ def run_cases(modname, variant, cases, timeout_case=120, nproc=None, extra_env=N
                     if rest:
                         queue.insert(0, rest)
                 continue
+            # the worker was started as a session leader: whatever it left behind in its process group dies with it.  (A sanitizer report
+            # starts one llvm-symbolizer child per reporting process, and that child outlives the aborted process; a thousand of them
+            # once exhausted the machine's memory during a long series of runs against deliberately broken trees.)
+            try:
+                os.killpg(p.pid, signal.SIGKILL)
+            except Exception:
+                pass
             done, inflight = harvest(p, info, True)
             del running[p]
             if rc != 0 or inflight is not None:
